@@ -93,3 +93,61 @@ def selfcheck_grid(psi, rng, n=6):
             v = psi.centre(lv + k, (2 ** k) * x + c, (2 ** k) * y + r)
             worst = max(worst, float(np.abs(g[r, c] - v).max()))
     return worst
+
+
+# ------------------------------------------------------------------------------------------------
+# histories on a reported tile: what happens to a Tile after the library has handed it out
+# ------------------------------------------------------------------------------------------------
+
+class _StubChunks(object):
+    """A chunked all-sky image of 64 x 32 pixels in a 4 x 2 grid of chunks (geometry only)."""
+    shape = (32, 64)
+    n_chunks = 8
+
+    def chunk_spec(self, i):
+        return (16 * (i % 4), 16 * (i // 4), 16, 16)
+
+
+def library_consumers(grid=False):
+    """The library's own consumers of Tile objects: the eight latitude/longitude footprint filters of a chunked
+    plate-carree sampler, toast_tile_area and the pixel-grid function.  Each is a callable(tile)."""
+    from toasty import samplers, toast
+    out = []
+    s = samplers.ChunkedPlateCarreeSampler(_StubChunks(), planetary=True)
+    out += [s.filter(i) for i in range(s.n_chunks)]
+    out.append(toast.toast_tile_area)
+    if grid:
+        out.append(lambda tile: toast.toast_tile_get_coords(tile) if tile.pos.n > 0 else None)
+    return out
+
+
+def hand_to_consumers(tile, consumers):
+    """Show the tile to every consumer (their results are not judged here)."""
+    for f in consumers:
+        try:
+            f(tile)
+        except Exception:  # noqa - a consumer that cannot digest the tile is some other check's subject
+            pass
+
+
+def scribble(tile):
+    """The caller owns what the library returned: overwrite, in place, every writeable array reachable from the tile's
+    corners (as a caller converting its tile to degrees would).  Returns the number of arrays modified.  Only to be
+    called when the tile itself is no longer needed."""
+    n = 0
+    seen = []
+    stack = [tile.corners]
+    while stack:
+        o = stack.pop()
+        if isinstance(o, np.ndarray):
+            base = o
+            while isinstance(base.base, np.ndarray):
+                base = base.base
+            if base.flags.writeable and not any(base is b for b in seen) and base.dtype.kind == "f":
+                seen.append(base)
+                base *= 57.29577951308232
+                base += 1000.0
+                n += 1
+        elif isinstance(o, (tuple, list)):
+            stack.extend(o)
+    return n
